@@ -1,10 +1,12 @@
 import Librfn.Driver.Pure
 import Librfn.Driver.Mlog
 import Librfn.Driver.Messageq
+import Librfn.Driver.MessageqConc
 
 def main (args : List String) : IO UInt32 :=
   match args with
   | "pure" :: rest => Librfn.Driver.Pure.main rest
   | "mlog" :: rest => Librfn.Driver.Mlog.main rest
   | "messageq" :: rest => Librfn.Driver.Messageq.main rest
+  | "messageq-conc" :: rest => Librfn.Driver.MessageqConc.main rest
   | _ => do IO.eprintln "usage: librfn_model <engine> [args]"; return 2
